@@ -834,14 +834,19 @@ func (m *Model) isTopReceiver(p *ssa.Parameter) bool {
 func (e *termEval) scanTerm(d *def, fr *frame) *Term {
 	sc := d.scan
 	t := &Term{Kind: "scan", Name: "?"}
-	if sc.Site == nil {
+	site := sc.Site
+	if site == nil && sc.Row != nil && fr != nil {
+		// a reader that is handed the row by several callers: the row of THIS calling context
+		site = e.m.rowSource(sc.Row, fr)
+	}
+	if site == nil {
 		return t
 	}
-	t.Site = sc.Site
+	t.Site = site
 	// handle class in this calling context
-	t.Handle = classList(sc.Site)
+	t.Handle = classList(site)
 	if fr != nil {
-		rv, _ := e.m.resolve(sc.Site.Recv, fr)
+		rv, _ := e.m.resolve(site.Recv, fr)
 		if isPtrToNamed(stripConv(rv).Type(), "database/sql", "Tx") {
 			t.Handle = "txn"
 		} else if isPtrToNamed(stripConv(rv).Type(), "database/sql", "DB") {
@@ -859,7 +864,7 @@ func (e *termEval) scanTerm(d *def, fr *frame) *Term {
 	}
 	var cols []string
 	table := "?"
-	for _, v := range sc.Site.Variants {
+	for _, v := range site.Variants {
 		st := v.Stmt()
 		if st != nil && st.Kind == sqlp.SPragma {
 			cols = append(cols, "pragma:"+st.PragmaName)
@@ -880,7 +885,7 @@ func (e *termEval) scanTerm(d *def, fr *frame) *Term {
 		after := false
 		for _, wp := range e.writePoints {
 			// the instruction, in the write point's function, that stands for this read
-			var anchor ssa.Instruction = sc.Site.Call
+			var anchor ssa.Instruction = site.Call
 			for f := fr; f != nil && anchor != nil && anchor.Parent() != wp.Parent(); f = f.caller {
 				if f.call != nil {
 					anchor = f.call
@@ -1000,6 +1005,34 @@ type writeUnit struct {
 // closureFrame builds the frame of transaction closure K: its lexical parent as top frame.
 func (m *Model) closureFrame(K *ssa.Function) *frame {
 	if K.Parent() == nil {
+		// a method that is used (once) as a bound method value `x.m`: its receiver is x
+		if K.Signature.Recv() != nil {
+			var site *ssa.MakeClosure
+			n := 0
+			for _, g := range m.Funcs {
+				for _, b := range g.Blocks {
+					for _, ins := range b.Instrs {
+						mc, ok := ins.(*ssa.MakeClosure)
+						if !ok || len(mc.Bindings) != 1 {
+							continue
+						}
+						w, ok := mc.Fn.(*ssa.Function)
+						if !ok || !strings.HasSuffix(w.Name(), "$bound") {
+							continue
+						}
+						for _, t := range m.funcTargets(mc) {
+							if t == K {
+								site = mc
+								n++
+							}
+						}
+					}
+				}
+			}
+			if n == 1 && site.Parent() != K {
+				return &frame{fn: K, caller: m.closureFrame(site.Parent()), recv: site.Bindings[0]}
+			}
+		}
 		return topFrame(K)
 	}
 	return &frame{fn: K, caller: m.closureFrame(K.Parent())}
@@ -1171,6 +1204,10 @@ func (m *Model) isWriteHelper(fn *ssa.Function) bool {
 	for _, p := range fn.Params {
 		t := p.Type()
 		if isPtrToNamed(t, "database/sql", "Tx") || isPtrToNamed(t, "database/sql", "DB") || t == types.Type(m.A.Queryable) {
+			return true
+		}
+		// a reader that is handed the row to scan
+		if isPtrToNamed(t, "database/sql", "Row") || isPtrToNamed(t, "database/sql", "Rows") {
 			return true
 		}
 		if pt, ok := t.(*types.Pointer); ok && m.A.EventType != nil && pt.Elem() == m.A.EventType && p != fn.Params[0] {
@@ -1381,6 +1418,13 @@ func (e *termEval) structField(v ssa.Value, field int, at ssa.Instruction, fr *f
 		return e.structFieldOfCall(call, x.Index, field, fr, depth)
 	case *ssa.Call:
 		return e.structFieldOfCall(x, 0, field, fr, depth)
+	case *ssa.Parameter:
+		// a struct passed by value (e.g. the receiver of a value method): the caller's value
+		if fr != nil {
+			if av, afr, ok := fr.actual(x); ok {
+				return e.structField(av, field, fr.call, afr, depth+1)
+			}
+		}
 	}
 	return nil
 }
@@ -1388,8 +1432,14 @@ func (e *termEval) structField(v ssa.Value, field int, at ssa.Instruction, fr *f
 func (e *termEval) structFieldOfCall(call *ssa.Call, idx, field int, fr *frame, depth int) *Term {
 	m := e.m
 	callee := call.Common().StaticCallee()
-	if callee == nil || !m.inPkg(callee) || len(callee.Blocks) == 0 || fr == nil || fr.depth >= 3 || !m.isWriteHelper(callee) {
+	if callee == nil || !m.inPkg(callee) || len(callee.Blocks) == 0 || fr == nil || fr.depth >= 3 {
 		return nil
+	}
+	if !m.isWriteHelper(callee) {
+		// ... or a straight-line accessor that merely packs values into a struct (`c.docKey(key)`)
+		if rv, _ := m.accessorResult(call, idx, fr); rv == nil {
+			return nil
+		}
 	}
 	cfr := fr.inline(call, callee)
 	var ts []*Term
